@@ -1854,6 +1854,8 @@ class Program:
         if fi.fq in cache:
             return cache[fi.fq]
         cache[fi.fq] = ANY            # recursion guard
+        if any(isinstance(n, (ast.Yield, ast.YieldFrom)) for n in iter_own_nodes(fi.node)):
+            return ANY                # a generator: calling it hands out an iterator, never None
         rets = [n for n in iter_own_nodes(fi.node) if isinstance(n, ast.Return)]
         if not rets or any(r.value is None for r in rets):
             t = ANY if rets else NONE
@@ -2420,6 +2422,7 @@ class TypeEnv:
                 return prog.inferred_return_type(fi)
             at = prog.ann_to_type(fi.module, fi.node.returns, fi.cls)
             if strip_opt(at)[0] == 'any' and not fi.is_property and fi.node.body and \
+                    not any(isinstance(y_, (ast.Yield, ast.YieldFrom)) for y_ in iter_own_nodes(fi.node)) and \
                     not any(isinstance(d_, ast.Name) and d_.id == 'abstractmethod' or isinstance(d_, ast.Attribute) and d_.attr == 'abstractmethod'
                             for d_ in fi.node.decorator_list):
                 # `-> Any` / `-> Optional[Any]` says nothing: what the return statements hand back says more
@@ -2632,11 +2635,54 @@ class TypeEnv:
                                 out.append(m_)
                     else:
                         ok = False
+                elif isinstance(arg, (ast.Call, ast.Constant, ast.JoinedStr, ast.List, ast.Tuple, ast.Dict)) and \
+                        self._calls_of_param_guarded(pname) and not self._callable_value(mod, arg):
+                    continue        # a value that is no function, and the call is under `callable(<param>)`: not called
                 else:
                     ok = False
         res = out if ok and n_sites else []
         cache[key] = res
         return res
+
+    def _calls_of_param_guarded(self, pname: str) -> bool:
+        """Every call `pname(...)` in this function stands in the true branch of `callable(pname)` (if statement or
+        conditional expression)."""
+        prog = self.prog
+
+        def is_guard(t: ast.expr) -> bool:
+            return isinstance(t, ast.Call) and isinstance(t.func, ast.Name) and t.func.id == 'callable' and len(t.args) == 1 and \
+                isinstance(t.args[0], ast.Name) and t.args[0].id == pname and prog.resolve_name(self.mod, 'callable') is None
+        calls = [c for c in iter_own_nodes(self.fn.node) if isinstance(c, ast.Call) and isinstance(c.func, ast.Name) and c.func.id == pname]
+        for c in calls:
+            child, par, ok = c, prog.parent(c), False
+            while par is not None and par is not self.fn.node:
+                if isinstance(par, ast.IfExp) and child is par.body and is_guard(par.test):
+                    ok = True
+                if isinstance(par, ast.If) and child in par.body and is_guard(par.test):
+                    ok = True
+                child, par = par, prog.parent(par)
+            if not ok:
+                return False
+        return bool(calls)
+
+    def _callable_value(self, mod: 'Module', arg: ast.expr) -> bool:
+        """May the value of `arg` (an expression at a call site in `mod`) be callable?  No for constants and displays, and for a
+        call of a package function / class whose result is an instance of a package class without __call__ (or a str)."""
+        prog = self.prog
+        if isinstance(arg, (ast.Constant, ast.JoinedStr, ast.List, ast.Tuple, ast.Dict)):
+            return False
+        if isinstance(arg, ast.Call) and isinstance(arg.func, (ast.Name, ast.Attribute)):
+            sym = prog.resolve_expr_symbol(mod, arg.func)
+            t = None
+            if isinstance(sym, ClassInfo):
+                t = ('cls', sym.fq)
+            elif isinstance(sym, FuncInfo) and sym.node.returns is not None:
+                t = strip_opt(prog.ann_to_type(sym.module, sym.node.returns, sym.cls))
+            if t is not None and t[0] == 'cls' and t[1] in prog.classes:
+                return prog.lookup_method(prog.classes[t[1]], '__call__') is not None
+            if t is not None and t[0] in ('str', 'int', 'bool', 'list', 'dict', 'set', 'tuple'):
+                return False
+        return True
 
     def _table_consts(self, x: ast.AST) -> List[Tuple[ast.AST, Module]]:
         """Module-level constant displays (dict / tuple / list / constructor call) of the package that the value of `x` may
